@@ -6,9 +6,10 @@
      rule "R"       (s, e]  closed right  } both must be accepted, and both give exactly N events in ANY 60 s window
      rule "both"    [s, e]  an instant on a boundary is announced twice        (must be rejected: dup)
      rule "neither" (s, e)  an instant on a boundary is never announced        (must be rejected: missing)
-     rule "impl"    pkg/scte35.CreateEmsgAhead as written: (s, e], but only the splice instants of the minute that
-                    contains the segment START are examined, first hit only
-     rule "fix"     the proposed fix: minute of the start and the following minute
+     rule "impl"    pkg/scte35.CreateEmsgAhead as written before /repo commit 28a0bd0: (s, e], but only the splice instants
+                    of the minute that contains the segment START are examined, first hit only (documented counterexample)
+     rule "fix"     CreateEmsgAhead as of 28a0bd0 (the current code): additionally the first splice of the following
+                    minute (minuteStart + 70 s)
    Invariants: MonitorExact (the incremental monitor = the direct statement of C13.once/none over the whole history),
    AcceptsBothReadings, ExactlyN (the theorem that makes `once` well defined), Rejected* (expected counterexamples). *)
 EXTENDS Scte35Ops, TLC
@@ -37,13 +38,15 @@ LeE(a) == TLeq(a, E)
 \* splice instants minuteStart + o*timescale in increasing order, first one with segStart < announce <= segEnd
 ImplIn(ms) == {ms + o : o \in {x \in Off(n) : TLt(s, Announce(ms + x)) /\ TLeq(Announce(ms + x), E)}}
 First(S) == IF S = {} THEN {} ELSE {Min(S)}
+\* 28a0bd0: spliceInsertTimes = append(spliceInsertTimes, minuteStart+70*timescale), examined last
+NextFirst(ms) == IF TLt(s, Announce(ms + 70)) /\ TLeq(Announce(ms + 70), E) THEN {ms + 70} ELSE {}
 MinuteOfStart == s.w - (s.w % 60)
 Carry == CASE rule = "L"       -> CarryBy(GeS, LtE)
            [] rule = "R"       -> CarryBy(GtS, LeE)
            [] rule = "both"    -> CarryBy(GeS, LeE)
            [] rule = "neither" -> CarryBy(GtS, LtE)
            [] rule = "impl"    -> First(ImplIn(MinuteOfStart))
-           [] rule = "fix"     -> First(ImplIn(MinuteOfStart) \cup ImplIn(MinuteOfStart + 60))
+           [] rule = "fix"     -> First(ImplIn(MinuteOfStart) \cup NextFirst(MinuteOfStart))
 
 \* ---- the monitor (exactly the clauses of Scte35_Trace)
 CarriedT == {h.T : h \in hist}
